@@ -310,3 +310,270 @@ theorem CInv.data_step {B0 : Bytes} {ss : List Site} {t : CTable} (h : CInv B0 s
       rw [slice_at this]
 
 end Tins.Dns
+
+namespace Tins.Dns
+open Out
+
+/-! ### appending octets behind a record / section -/
+
+theorem same_prefix (buf ext : Bytes) (lo hi : Nat) (h : hi ≤ buf.length) : Same buf (buf ++ ext) 0 lo hi (fun _ => False) := by
+  intro y _ hy _
+  rw [Nat.add_zero, List.getElem?_append_left (by omega)]
+
+theorem ptrStill_prefix {buf : Bytes} {σ : Site} (hn : NameSite buf σ.s σ.x σ.e) (ext : Bytes) : PtrStill (buf ++ ext) 0 σ := by
+  intro he
+  rcases hn.term with ⟨h1, _⟩ | ⟨_, hi, lo, h0, h1, h3⟩
+  · omega
+  · exact ⟨hi, lo, getElem?_append_some h0, getElem?_append_some h1, h3⟩
+
+theorem RecAt.append {buf : Bytes} {r : RecL} (h : RecAt buf r) (ext : Bytes) : RecAt (buf ++ ext) r := by
+  have := h.transport (d := 0) (buf' := buf ++ ext) (M := fun _ => False) (same_prefix buf ext _ _ h.bound)
+    (fun _ _ _ hf => hf.elim) (fun σ hσ => ptrStill_prefix (h.site_mem hσ).2.2.1 ext)
+    (by rw [List.length_append]; have := h.bound; omega)
+  rwa [RecL.add_zero] at this
+
+theorem viewRec_append {buf : Bytes} {r : RecL} (h : RecAt buf r) (hs : ∀ σ ∈ r.sites, SiteOk buf σ) (ext : Bytes) :
+    viewRec (buf ++ ext) r = viewRec buf r := by
+  have := viewRec_transport (d := 0) (buf' := buf ++ ext) (M := fun _ => False) h (same_prefix buf ext _ _ h.bound)
+    (fun _ _ _ hf => hf.elim) (fun σ hσ => ((hs σ hσ).nameAt_append ext).1)
+  rwa [RecL.add_zero] at this
+
+theorem SecAt.append {buf : Bytes} {p e : Nat} {rs : List RecL} (h : SecAt buf p rs e) (ext : Bytes) :
+    SecAt (buf ++ ext) p rs e := by
+  induction h with
+  | nil => exact SecAt.nil
+  | cons h1 h2 _ ih => exact SecAt.cons h1 (h2.append ext) ih
+
+theorem QSecAt.append {buf : Bytes} {p e : Nat} {qs : List Site} (h : QSecAt buf p qs e) (ext : Bytes) :
+    QSecAt (buf ++ ext) p qs e := by
+  induction h with
+  | nil => exact QSecAt.nil
+  | @cons p σ qs e h1 h2 h3 h4 h5 _ ih =>
+    have hs := same_prefix buf ext σ.e (σ.e + 4) h3
+    refine QSecAt.cons h1 (h2.append ext) (by rw [List.length_append]; omega) ?_ ?_ ih
+    · have := u16at_same hs (i := σ.e) (Nat.le_refl _) (by omega) (fun hf => hf) (fun hf => hf)
+      rw [Nat.add_zero] at this; rw [this]; exact h4
+    · have := u16at_same hs (i := σ.e + 2) (by omega) (by omega) (fun hf => hf) (fun hf => hf)
+      rw [Nat.add_zero] at this; rw [this]; exact h5
+
+/-! ### one record -/
+
+def SRec.short (r : SRec) : Bool := decide (r.owner.length ≤ 31) && r.data.short
+
+theorem CInv.rec_step {buf : Bytes} {ss : List Site} {t : CTable} (h : CInv buf ss t) {r : SRec} (hl : r.legal = true)
+    (hsh : r.short = true) :
+    ∃ rl : RecL, rl.own.s = buf.length ∧ rl.stop = buf.length + (compressRec t buf.length r).1.length ∧
+      RecAt (buf ++ (compressRec t buf.length r).1) rl ∧
+      CInv (buf ++ (compressRec t buf.length r).1) (ss ++ rl.sites) (compressRec t buf.length r).2 ∧
+      (compressRec t buf.length r).1.length ≤ r.wire.length ∧
+      viewRec (buf ++ (compressRec t buf.length r).1) rl = r.view := by
+  obtain ⟨hok, hwl, hty, hc, httl, hd⟩ := SRec.legal_facts hl
+  simp only [SRec.short, Bool.and_eq_true, decide_eq_true_eq] at hsh
+  have hdl := SData.wire_lt hd
+  obtain ⟨σo, o1, o2, o3, o4, o5⟩ := h.name hok hwl hsh.1
+  cases hcn : compressName t buf.length r.owner with
+  | mk o t1 =>
+    rw [hcn] at o2 o3 o4 o5
+    dsimp only at o2 o3 o4 o5
+    cases hcd : compressData t1 (buf.length + o.length + 10) r.data with
+    | mk d t2 =>
+      have hcr : compressRec t buf.length r = (o ++ be16 r.type ++ be16 r.cls ++ be32 r.ttl ++ be16 d.length ++ d, t2) := by
+        unfold compressRec; rw [hcn]; dsimp only; rw [hcd]
+      rw [hcr]
+      dsimp only
+      -- the buffer in front of the data
+      have hB0len : (buf ++ o ++ (be16 r.type ++ be16 r.cls ++ be32 r.ttl ++ be16 d.length)).length = buf.length + o.length + 10 := by
+        simp only [List.length_append, be16_length, be32_length]
+      have h0 := o4.raw (be16 r.type ++ be16 r.cls ++ be32 r.ttl ++ be16 d.length)
+      obtain ⟨ds, d1, d2, d3, d4, d5⟩ := h0.data_step σo (by rw [hB0len, o2]) hd hsh.2
+      rw [hB0len, hcd] at d1 d2 d3 d4 d5
+      dsimp only at d1 d2 d3 d4 d5
+      have hcat : buf ++ (o ++ be16 r.type ++ be16 r.cls ++ be32 r.ttl ++ be16 d.length ++ d) =
+          buf ++ o ++ (be16 r.type ++ be16 r.cls ++ be32 r.ttl ++ be16 d.length) ++ d := by
+        simp only [List.append_assoc]
+      rw [hcat]
+      have hdlen : d.length < 65536 := by omega
+      -- the fixed fields
+      have hatT : At (buf ++ o ++ (be16 r.type ++ be16 r.cls ++ be32 r.ttl ++ be16 d.length) ++ d) σo.e
+          (be16 r.type ++ (be16 r.cls ++ (be32 r.ttl ++ (be16 d.length ++ d)))) := by
+        have := at_end (buf ++ o) (be16 r.type ++ (be16 r.cls ++ (be32 r.ttl ++ (be16 d.length ++ d))))
+        rw [List.length_append, ← o2] at this
+        simpa only [List.append_assoc] using this
+      have hatC := hatT.right
+      have hatL := hatC.right
+      have hatD := hatL.right
+      simp only [be16_length, be32_length] at hatC hatL hatD
+      have eT := At.u16at hatT hty
+      have eC := At.u16at hatC hc
+      have eL := At.u32at hatL httl
+      have eD := At.u16at hatD hdlen
+      have hown : SiteName (buf ++ o ++ (be16 r.type ++ be16 r.cls ++ be32 r.ttl ++ be16 d.length) ++ d) σo r.owner :=
+        (o3.append _).append _
+      refine ⟨⟨σo, r.type, d.length, ds⟩, o1, ?_, ⟨hown.site, ?_, eT.symm, ?_, ?_⟩, ?_, ?_, ?_⟩
+      · simp only [RecL.stop, List.length_append, be16_length, be32_length]; omega
+      · simp only [RecL.stop, List.length_append, be16_length, be32_length]; omega
+      · dsimp only; rw [show σo.e + 8 = σo.e + 2 + 2 + 4 by omega]; exact eD.symm
+      · dsimp only [RecL.stop]
+        rw [o2]; exact d1
+      · have : ss ++ RecL.sites ⟨σo, r.type, d.length, ds⟩ = ss ++ [σo] ++ ds := by
+          simp only [RecL.sites, List.append_assoc, List.cons_append, List.nil_append]
+        rw [this]; exact d2
+      · rw [SRec.wire_length]
+        simp only [List.length_append, be16_length, be32_length]; omega
+      · rw [SRec.view_eq]
+        unfold viewRec
+        dsimp only [RecL.dstart]
+        rw [nameAt_siteName hown hok hwl, eC, show σo.e + 4 = σo.e + 2 + 2 by omega, eL, d4, d5]
+
+/-! ### a section of records -/
+
+theorem CInv.sec_step : ∀ (rs : List SRec) (buf : Bytes) (ss : List Site) (t : CTable), CInv buf ss t →
+    (∀ r ∈ rs, r.legal = true ∧ r.short = true) →
+    ∃ rls : List RecL,
+      SecAt (buf ++ (compressList compressRec t buf.length rs).1) buf.length rls
+        (buf.length + (compressList compressRec t buf.length rs).1.length) ∧
+      CInv (buf ++ (compressList compressRec t buf.length rs).1) (ss ++ recSites rls) (compressList compressRec t buf.length rs).2 ∧
+      rls.length = rs.length ∧
+      (∀ ext, rls.map (viewRec (buf ++ (compressList compressRec t buf.length rs).1 ++ ext)) = rs.map SRec.view) ∧
+      (compressList compressRec t buf.length rs).1.length ≤ (wireRecs rs).length
+  | [], buf, ss, t, h, _ => by
+    refine ⟨[], ?_, ?_, rfl, fun _ => rfl, by simp [compressList]⟩
+    · simp only [compressList, List.append_nil, List.length_nil, Nat.add_zero]; exact SecAt.nil
+    · simp only [compressList, List.append_nil, recSites, List.flatMap_nil]; exact h
+  | r :: rs, buf, ss, t, h, hl => by
+    obtain ⟨hlr, hsr⟩ := hl r List.mem_cons_self
+    obtain ⟨rl, a1, a2, a3, a4, a5, a6⟩ := h.rec_step hlr hsr
+    cases hcr : compressRec t buf.length r with
+    | mk b1 t1 =>
+      rw [hcr] at a2 a3 a4 a5 a6
+      dsimp only at a2 a3 a4 a5 a6
+      have hlen1 : (buf ++ b1).length = buf.length + b1.length := by simp
+      obtain ⟨rls, c1, c2, c3, c4, c5⟩ := CInv.sec_step rs (buf ++ b1) _ t1 a4
+        (fun x hx => hl x (List.mem_cons_of_mem _ hx))
+      rw [hlen1] at c1 c2 c4 c5
+      cases hcl : compressList compressRec t1 (buf.length + b1.length) rs with
+      | mk bs t2 =>
+        rw [hcl] at c1 c2 c4 c5
+        dsimp only at c1 c2 c4 c5
+        have hcomp : compressList compressRec t buf.length (r :: rs) = (b1 ++ bs, t2) := by
+          rw [compressList, hcr]; dsimp only; rw [hcl]
+        rw [hcomp]
+        dsimp only
+        have hcat : buf ++ (b1 ++ bs) = buf ++ b1 ++ bs := by simp only [List.append_assoc]
+        rw [hcat]
+        refine ⟨rl :: rls, SecAt.cons a1 (a3.append bs) ?_, ?_, by simp [c3], ?_, ?_⟩
+        · rw [a2]
+          have : buf.length + (b1 ++ bs).length = buf.length + b1.length + bs.length := by
+            rw [List.length_append]; omega
+          rw [this]; exact c1
+        · have : ss ++ recSites (rl :: rls) = ss ++ rl.sites ++ recSites rls := by
+            simp only [recSites, List.flatMap_cons, List.append_assoc]
+          rw [this]; exact c2
+        · intro ext
+          rw [List.map_cons, List.map_cons, c4 ext, List.append_assoc (buf ++ b1),
+            viewRec_append a3 (fun σ hσ => (a4.sites σ (List.mem_append_right _ hσ)).1), a6]
+        · rw [wireRecs_cons, List.length_append, List.length_append]; omega
+
+end Tins.Dns
+
+namespace Tins.Dns
+open Out
+
+/-! ### questions -/
+
+theorem viewQ_append {buf : Bytes} {σ : Site} (hs : SiteOk buf σ) (hb : σ.e + 4 ≤ buf.length) (ext : Bytes) :
+    viewQ (buf ++ ext) σ = viewQ buf σ := by
+  have := viewQ_transport (d := 0) (buf := buf) (buf' := buf ++ ext) (σ := σ)
+    (fun y _ y2 => by rw [Nat.add_zero, List.getElem?_append_left (by omega)]) (hs.nameAt_append ext).1
+  rwa [Site.add_zero] at this
+
+theorem CInv.q_step {buf : Bytes} {ss : List Site} {t : CTable} (h : CInv buf ss t) {q : SQuery} (hl : q.legal = true)
+    (he : q.inEnumRange = true) (hsh : q.name.length ≤ 31) :
+    ∃ σ : Site, σ.s = buf.length ∧ σ.e + 4 = buf.length + (compressQuery t buf.length q).1.length ∧
+      NameSite (buf ++ (compressQuery t buf.length q).1) σ.s σ.x σ.e ∧
+      u16at (buf ++ (compressQuery t buf.length q).1) σ.e < 64 ∧
+      u16at (buf ++ (compressQuery t buf.length q).1) (σ.e + 2) < 256 ∧
+      CInv (buf ++ (compressQuery t buf.length q).1) (ss ++ [σ]) (compressQuery t buf.length q).2 ∧
+      viewQ (buf ++ (compressQuery t buf.length q).1) σ = q.view ∧
+      (compressQuery t buf.length q).1.length ≤ q.wire.length := by
+  obtain ⟨hok, hwl, hty, hc⟩ := SQuery.legal_facts hl
+  simp only [SQuery.inEnumRange, Bool.and_eq_true, decide_eq_true_eq] at he
+  obtain ⟨σ, o1, o2, o3, o4, o5⟩ := h.name hok hwl hsh
+  cases hcn : compressName t buf.length q.name with
+  | mk o t1 =>
+    rw [hcn] at o2 o3 o4 o5
+    dsimp only at o2 o3 o4 o5
+    have hcq : compressQuery t buf.length q = (o ++ be16 q.type ++ be16 q.cls, t1) := by
+      unfold compressQuery; rw [hcn]
+    rw [hcq]
+    dsimp only
+    have hcat : buf ++ (o ++ be16 q.type ++ be16 q.cls) = buf ++ o ++ (be16 q.type ++ be16 q.cls) := by
+      simp only [List.append_assoc]
+    rw [hcat]
+    have hatT : At (buf ++ o ++ (be16 q.type ++ be16 q.cls)) σ.e (be16 q.type ++ be16 q.cls) := by
+      have := at_end (buf ++ o) (be16 q.type ++ be16 q.cls)
+      rwa [List.length_append, ← o2] at this
+    have hatC := hatT.right
+    simp only [be16_length] at hatC
+    have eT := At.u16at hatT hty
+    have eC := At.u16at (rest := []) (by rw [List.append_nil]; exact hatC) hc
+    have hsn : SiteName (buf ++ o ++ (be16 q.type ++ be16 q.cls)) σ q.name := o3.append _
+    refine ⟨σ, o1, by simp only [List.length_append, be16_length]; omega, hsn.site, by rw [eT]; exact he.1,
+      by rw [eC]; exact he.2, o4.raw _, ?_, by rw [SQuery.wire_length]; simp only [List.length_append, be16_length]; omega⟩
+    unfold viewQ
+    rw [nameAt_siteName hsn hok hwl, eT, eC]
+    rfl
+
+theorem CInv.qsec_step : ∀ (qs : List SQuery) (buf : Bytes) (ss : List Site) (t : CTable), CInv buf ss t →
+    (∀ q ∈ qs, q.legal = true ∧ q.inEnumRange = true ∧ q.name.length ≤ 31) →
+    ∃ σs : List Site,
+      QSecAt (buf ++ (compressList compressQuery t buf.length qs).1) buf.length σs
+        (buf.length + (compressList compressQuery t buf.length qs).1.length) ∧
+      CInv (buf ++ (compressList compressQuery t buf.length qs).1) (ss ++ σs) (compressList compressQuery t buf.length qs).2 ∧
+      σs.length = qs.length ∧
+      (∀ ext, σs.map (viewQ (buf ++ (compressList compressQuery t buf.length qs).1 ++ ext)) = qs.map SQuery.view) ∧
+      (compressList compressQuery t buf.length qs).1.length ≤ (wireQs qs).length
+  | [], buf, ss, t, h, _ => by
+    refine ⟨[], ?_, ?_, rfl, fun _ => rfl, by simp [compressList]⟩
+    · simp only [compressList, List.append_nil, List.length_nil, Nat.add_zero]; exact QSecAt.nil
+    · simp only [compressList, List.append_nil]; exact h
+  | q :: qs, buf, ss, t, h, hl => by
+    obtain ⟨hlq, heq, hsq⟩ := hl q List.mem_cons_self
+    obtain ⟨σ, a1, a2, a3, a4, a5, a6, a7, a8⟩ := h.q_step hlq heq hsq
+    cases hcr : compressQuery t buf.length q with
+    | mk b1 t1 =>
+      rw [hcr] at a2 a3 a4 a5 a6 a7 a8
+      dsimp only at a2 a3 a4 a5 a6 a7 a8
+      have hlen1 : (buf ++ b1).length = buf.length + b1.length := by simp
+      obtain ⟨σs, c1, c2, c3, c4, c5⟩ := CInv.qsec_step qs (buf ++ b1) _ t1 a6
+        (fun x hx => hl x (List.mem_cons_of_mem _ hx))
+      rw [hlen1] at c1 c2 c4 c5
+      cases hcl : compressList compressQuery t1 (buf.length + b1.length) qs with
+      | mk bs t2 =>
+        rw [hcl] at c1 c2 c4 c5
+        dsimp only at c1 c2 c4 c5
+        have hcomp : compressList compressQuery t buf.length (q :: qs) = (b1 ++ bs, t2) := by
+          rw [compressList, hcr]; dsimp only; rw [hcl]
+        rw [hcomp]
+        dsimp only
+        have hcat : buf ++ (b1 ++ bs) = buf ++ b1 ++ bs := by simp only [List.append_assoc]
+        rw [hcat]
+        have hs1 := same_prefix (buf ++ b1) bs σ.e (σ.e + 4) (by rw [hlen1]; omega)
+        refine ⟨σ :: σs, QSecAt.cons a1 (a3.append bs) (by simp only [List.length_append]; omega) ?_ ?_ ?_, ?_,
+          by simp [c3], ?_, ?_⟩
+        · have := u16at_same hs1 (i := σ.e) (Nat.le_refl _) (by omega) (fun hf => hf) (fun hf => hf)
+          rw [Nat.add_zero] at this; rw [this]; exact a4
+        · have := u16at_same hs1 (i := σ.e + 2) (by omega) (by omega) (fun hf => hf) (fun hf => hf)
+          rw [Nat.add_zero] at this; rw [this]; exact a5
+        · rw [a2]
+          have : buf.length + (b1 ++ bs).length = buf.length + b1.length + bs.length := by
+            rw [List.length_append]; omega
+          rw [this]; exact c1
+        · have : ss ++ σ :: σs = ss ++ [σ] ++ σs := by simp only [List.append_assoc, List.cons_append, List.nil_append]
+          rw [this]; exact c2
+        · intro ext
+          rw [List.map_cons, List.map_cons, c4 ext, List.append_assoc (buf ++ b1),
+            viewQ_append (a6.sites σ (List.mem_append_right _ List.mem_cons_self)).1 (by rw [hlen1]; omega), a7]
+        · rw [wireQs_cons, List.length_append, List.length_append]; omega
+
+end Tins.Dns
